@@ -69,6 +69,8 @@ COMMANDS = [
     ("class-def", "def class Shape do def sides = 4; def describe(self) 'shape ' + string(self->sides) end; Shape->sides"),
     ("class-def-fails", "def class Shape do def sides = 3; def bad = nosuch_name; def other(self) 1 end"),
     ("loop-def", "for i in [1, 2, 3] do def seen_in_loop = i * 10 end; seen_in_loop"),
+    # a loop whose variable has the name of a session variable: the session variable is there again afterwards
+    ("loop-over-x", "for x in [7, 8] do x end; x"),
 ]
 RUN_FILES = {"defs_file.ckl": "def from_file = 41;\ndef from_file_fn() from_file + 1;\n",
              "failing_file.ckl": "def early = 7;\nerror 'fromfile';\ndef late = 8;\n"}
@@ -175,6 +177,8 @@ class Model:
         if name == "loop-def":
             b["seen_in_loop"] = 30
             return ("value", "30")
+        if name == "loop-over-x":
+            return ("value", str(b["x"])) if "x" in b else ERR
         if name == "long-script-syntax":
             return ("syntax",)
         if name == "long-script-runtime":
